@@ -245,7 +245,8 @@ def run(ctx):
                 "at event-loop pass k for k over the passes of the base run (quick: every 9th pass and every pass of the handshake window; thorough: every pass), also with a client whose handlers suspend and with the connection's socket lost (connection_lost(OSError)) two passes earlier: 0.5 s after the "
                 "action every endpoint and SPA / FACADE task of the abandoned connection must be closed / done; three late datagrams are then fed to the abandoned protocol object "
                 "and 3 s pass: no event of the abandoned spa object may reach the client; after exit nothing is open or alive; after a reset the manager must reconnect; "
-                "the model's accounting predicate is evaluated on every observed ledger; plus runs of consecutive reconnect cycles under faults; "
+                "the model's accounting predicate is evaluated on every observed ledger; plus runs of consecutive reconnect cycles under faults; plus schedules of the interleaved lifecycle rig "
+                "(client handler suspended at every delivery) in which no spa object may be dropped without disconnect(); "
                 "non-trivial = crash point inside LOCATING / CONNECTING / an error state")
     ctx.prove(extra_targets=["Model/LedgerChk.vo"], timeout=600)
     obs_all, meta = [], []
@@ -303,6 +304,38 @@ def run(ctx):
             ctx.fail("ledger:endpoints_grow", "%d endpoints open at once during %d reconnect cycles" % (mx_eps, len(obs) - 1), {"seed": seed})
         if mx_tasks > 16:
             ctx.fail("ledger:tasks_grow", "%d tasks alive at once during %d reconnect cycles" % (mx_tasks, len(obs) - 1), {"seed": seed})
+    # resets that land at await points INSIDE another handler (the interleaved lifecycle rig of C08: the client's handler suspends at
+    # every delivery, tasks are resumed one burst at a time): no spa object may be left behind without disconnect() having completed on it
+    from harness import lifecycle_i
+    R = lambda sl: ("Resume", sl)   # noqa: E731
+    k11_stale = [R("P"), ("LocOutcome", False, False), R("P"), R("P"), ("LocOutcome", True, False), R("P"), R("P"), R("P"), ("ConnOutcome", "raise"), R("P"),
+                 ("UserReset",), R("P"), R("P"), ("LocOutcome", False, False), R("P"), R("P"), ("LocOutcome", True, False), R("P"), R("P"), R("P"), R("U")]
+    k11_over = [R("P"), ("LocOutcome", False, False), R("P"), R("P"), ("LocOutcome", True, False), R("P"), R("P"), ("UserReset",), R("P"), ("ConnOutcome", "next"), R("P"),
+                ("ConnOutcome", "next"), R("P"), R("P"), ("ConnOutcome", "cannot0"), R("P"), R("P"), R("P"), ("LocOutcome", False, False), R("P"), R("P"),
+                ("LocOutcome", True, False), R("P"), R("P"), R("P")]
+    iexprs = []
+    runs_i = [("k11_stale_reset", k11_stale), ("k11_overwrite", k11_over)] + [("adaptive", None)] * (60 if ctx.thorough else 16)
+    for kind, fixed in runs_i:
+        if fixed is None:
+            enter, start, out, alive = lifecycle_i.run_adaptive(True, ctx.rng, 70, warm=ctx.rng.random() < 0.4)
+        else:
+            enter, start, out, alive = lifecycle_i.run_schedule(True, fixed)
+        ctx.count("interleaved_schedules")
+        ctx.case(("interleaved", kind, str([x[0] for x in out if x[1]])), nontrivial=True)
+        from props.C08 import ilabel
+        iexprs.append("Nat.eqb (chk_ileaks true [%s]) 0" % "; ".join("(%s, %s, %s)" % (ilabel(x[0]), vf.cbool(x[1]), vf.cbool(x[6] > 0)) for x in out))
+        first = next((j for j, x in enumerate(out) if x[1] and x[6] > 0), None)
+        if first is not None:
+            ctx.count("interleaved_schedules_that_drop_a_spa")
+            ctx.fail("ledger:spa_dropped_undisconnected:interleaved", "a spa object the manager no longer references was never disconnected (its endpoint and tasks are nobody's): after %r, "
+                     "step %d of a schedule in which a reset lands inside another handler" % (out[first][0], first + 1), {"kind": kind, "schedule": [x[0] for x in out[:first + 1] if x[1]]})
+    IHEADER = """From Coq Require Import List Bool String.
+Require Import GV.Gen.LifecycleRules GV.Model.Lifecycle GV.Model.LifecycleChk GV.Model.LifecycleI GV.Model.LifecycleIChk.
+Import ListNotations. Open Scope string_scope.
+"""
+    ires = ctx.coq_cases("ileak", IHEADER, iexprs, shard=6)
+    ibad = [i for i, x in enumerate(ires) if x is not True]
+    ctx.oblige("correspondence:dropped_spa_objects_as_the_interleaved_model_predicts", not ibad, "schedules that disagree: %r" % ([runs_i[i][0] for i in ibad[:4]],))
     for m in meta:
         ctx.sample(m)
     res = ctx.coq_cases("ledger", HEADER, ["chk_ledger [%s]" % "; ".join(cobs(o) for o in obs_all[i:i + 300]) for i in range(0, len(obs_all), 300)], shard=4)
